@@ -18,6 +18,7 @@ type Value struct {
 	Const constant.Value   // untyped constant (contract expressions only)
 	Bind  []Value          // closure bindings evaluated at MakeClosure
 	NN    bool             // pointer known to be non-nil
+	Obj   *Term            // contract expressions only: the content array this slice value denotes (withzero)
 }
 
 // LocalRef addresses leaves [Off, Off+len(layout(T))) of the cell of alloc A.
